@@ -60,7 +60,9 @@ Definition outputs_all_or_nothing (c : N) (unfailed failed : outcome) : Prop :=
 (* ---- well-formed prior states ------------------------------------------------- *)
 (* every name in the registry has a non-empty queue of live owners, no connection twice in it *)
 Definition good_queue (q : queue) : Prop := q <> [] /\ forallb o_live q = true /\ NoDup (map o_conn q).
-Definition inv (b : bus) : Prop := Forall (fun kq => good_queue (snd kq)) (b_services b).
+(* ... and no name is in the registry twice *)
+Definition inv (b : bus) : Prop :=
+  Forall (fun kq => good_queue (snd kq)) (b_services b) /\ NoDup (map fst (b_services b)).
 
 (* ---- the exceptions ------------------------------------------------------------- *)
 (* request classes for which the bus does NOT satisfy the property (findings
@@ -79,7 +81,7 @@ Definition uncovered (b : bus) (e : event) : bool :=
       match find_conn (b_conns b) c with
       | None => true
       | Some cn =>
-          if negb (c_active cn) || name_refused name || (b_maxnames b <=? nlen (c_owned cn)) then false else
+          if negb (c_active cn) || name_refused name || ((b_maxnames b <=? nlen (c_owned cn)) && negb (in_queue (b_services b) (KW name) c)) then false else
           match lookup (b_services b) (KW name) with
           | None | Some [] => false
           | Some ((p :: _) as q) =>
